@@ -2,8 +2,8 @@
 from hist import *  # noqa
 from remerkleable.tree import NavigationError, RootNode
 
-THEOREMS = ["C17_root", "C17_get", "C17_set", "C17_set_expand", "C17_errors", "C17_summarize", "C17_writes_stay_related", "C17_view_get", "C17_view_set", "C17_list_append", "C17_list_pop", "C17_bits_get", "C17_bits_set", "C17_bitlist_append", "C17_bitlist_pop", "C17_union_value", "C17_lengths"]
-PARTIAL = ["view level: every mutating / reading view operation of the model (element and field get / set, append, pop, bit get / set, Bitlist append / pop, union selector / value, lengths) that succeeds on the partial tree is proved to succeed on the complete tree with the same data and again related backings (C17_view_* ...), so histories compose; NOT proved at view level: serialisation / object export / iteration over partial trees, and that a failure is always a navigation or index error for the composed operations (tree level: C17_errors) — both covered by the correspondence (every read path of every held view: complete answer or navigation / index error)"]
+THEOREMS = ["C17_root", "C17_get", "C17_set", "C17_set_expand", "C17_errors", "C17_summarize", "C17_writes_stay_related", "C17_view_get", "C17_view_set", "C17_list_append", "C17_list_pop", "C17_bits_get", "C17_bits_set", "C17_bitlist_append", "C17_bitlist_pop", "C17_union_value", "C17_lengths", "C17_encoding", "C17_store_start", "C17_store_command", "C17_store_observed"]
+PARTIAL = ["the model theorems cover the statement at tree, view and store level: every view operation, serialisation (C17_encoding) and ANY store command with its hook propagation (C17_store_command) that succeeds on the partial tree succeeds on the complete tree with the same data and related (equally rooted) backings, so histories through any held views compose; failures at tree level are navigation errors (C17_errors). NOT proved: object export / iteration over partial trees and that the COMPOSED view operations fail only with navigation / index errors — covered by the correspondence (every read path of every held view: complete answer or navigation / index error)"]
 ASSUMPTIONS = ["Hinj (collision-freeness of the pair hash) is a premise of C17_set_expand"]
 COQ_IMPORTS = ["RM.Types", "RM.ModelStore", "RMR.RunC17"]
 COQ_FN = "RunC17.run"
